@@ -101,3 +101,29 @@ func VfC01_AskPairing() {
 	}
 	c.Stop()
 }
+
+// VfC02_AskDuringStop: a request redirected with ASK is handed to the target node's connection
+// while that connection is being stopped (host removed or replaced, upstream stopping): whatever the interleaving, the redirected request is answered exactly once
+// (by the node or with an error) - it is not lost between the ASKING exchange and its own turn.
+func VfC02_AskDuringStop() {
+	nd.ConcreteClock(true)
+	a, b := "10.0.0.1:7000", "10.0.0.2:7000"
+	u, clients := vfNewUpstream(nil, a, b)
+	be := &vfEchoBackend{vfBackend: *vfNewBackend()}
+	c := vfNewClient(be, nd.Concrete(nd.IntRange("queue-capacity", 1, 2)))
+	c.onRedirection = u.handleRedirection
+	c.onClusterDown = u.handleClusterDown
+	clients[b] = c
+	u.clients.Store(clients)
+	started := false
+	go func() { c.Start(); started = true }()
+	req := newSimpleRequest(newStringArray("get", "k1"))
+	nd.PanicLabel("ask-during-stop")
+	go func() { u.handleRedirection(req, newError("ASK 1 "+b)) }()
+	stopped := false
+	go func() { c.Stop(); stopped = true }()
+	nd.Quiesce()
+	nd.Assert(stopped && started, "the connection stops")
+	nd.Assert(vfDone(req.done), "a request redirected with ASK to a connection that is being stopped is answered (not lost between ASKING and its own turn)")
+	nd.Cover("stopped-during-ask")
+}
